@@ -19,6 +19,9 @@ MAYPANIC_RX = (r"BTreeMap::<K, V, A>::(range|range_mut)$|Vec::<T, A>::(remove|sw
 EXPLICIT_PANIC_RX = r"panicking::(panic|panic_fmt|assert_failed|panic_display|unreachable_display|panic_explicit|panic_nounwind)\w*$|option::(unwrap_failed|expect_failed)$"
 
 
+CONFIG_FIELDS = {"log_cache_max_items", "log_cache_capacity", "read_buffer_size", "chunk_max_records", "chunk_max_size"}
+
+
 def load_table():
     with open(os.path.join(VERIF, "spec", "c16_discharge.json")) as f:
         return json.load(f)
@@ -64,6 +67,8 @@ class Taint:
             if re.search(PASS_RX, e[1]) or re.search(CHECKED_RX, e[1]):
                 return any(self.t(x) for x in e[2])
             return False
+        if h == "field" and e[2] in CONFIG_FIELDS and contains(e[1], lambda x: isinstance(x, tuple) and len(x) == 3 and x[0] == "field" and x[2] == "config"):
+            return True      # a configuration value chosen by the user (possibly different from the one the store was written with)
         if h in ("field", "cast", "okval", "errval", "as", "unop", "branch", "residual", "discr", "repeat"):
             return any(self.t(x) for x in e[1:] if isinstance(x, tuple))
         if h == "idx":
@@ -106,8 +111,8 @@ def range_guarded(a):
 
 def run(ctx, rep):
     rep.rule("R16.1", "every panic-capable site (overflow/bounds/division assert, may-panic std call) in the cone of a public "
-                      "operation whose operand is data-dependent on an argument or on a Types::log_index/next_log_index/payload_size "
-                      "value is guarded, or discharged by an entry of spec/c16_discharge.json")
+                      "operation whose operand is data-dependent on an argument, on a Types::log_index/next_log_index/payload_size "
+                      "value or on a Config limit is guarded, or discharged by an entry of spec/c16_discharge.json")
     rep.rule("R16.2", "inventory of argument-independent panic sites (explicit panics, lock-poison unwraps, internal offset arithmetic): counted, not armed")
     table = load_table()
     ents = entries(ctx)
